@@ -12,6 +12,6 @@ if os.path.exists(d + '/meta.agent.json'):
 m = {'property': sid.split('-')[0], 'summary': (am.get('summary') or '')[:400], 'needs': (am.get('needs') or '')[:400],
      'caught_by': caught,
      'validated': 'demo fails with / passes without the patch; 294 stable tests (347 total) pass with the patch',
-     'round': 4, 'agent_meta': am}
+     'round': int(sys.argv[3]) if len(sys.argv) > 3 else 5, 'agent_meta': am}
 json.dump(m, open(d + '/meta.json', 'w'), indent=1)
 print('ok', sid)
